@@ -504,10 +504,9 @@ class Ctx:
         for key, what in self.known:
             print("KNOWN-FINDING: property=%s %s: %s" % (self.pid, key, what))
         for key, what, path, no_input in self.violations:
-            print("VIOLATION property=%s replay=%s %s%s" % (self.pid, path, "(" + key + ") ",
-                                                           "no-failing-input-found" if no_input else ""))
-            if not no_input:
-                print("  what: " + what)
+            print("VIOLATION property=%s replay=%s%s" % (self.pid, path, " no-failing-input-found" if no_input else ""))
+            print("  key: %s" % key)
+            print("  what: " + what[:1500].replace("\n", " "))
         if self.violations:
             return 1
         print("[%s] OK tier=%s seed=%d wall=%.1fs" % (self.pid, self.tier, self.seed, time.time() - self.t0))
